@@ -56,3 +56,69 @@ def c18_no_mutable_statics():
             "job": {"job": "static.c18.sections", "functions_under_contract": [], "obligations": n,
                     "discharged": n - len(set(b.split(":")[0] for b in bad)), "status": "fail" if bad else "ok",
                     "backend": "gcc -c + objdump -t (object symbols by section)", "note": "no writable object of static storage duration in any library object file"}}
+
+
+READERS = re.compile(r"^(skinny(128|64)_ecb_(encrypt|decrypt)|mantis_ecb_crypt(_tweaked)?|"
+                     r"(skinny(128|64)|mantis)_parallel_ecb_(encrypt|decrypt|crypt)|_(skinny(128|64)|mantis)_parallel_(encrypt|decrypt|crypt)_vec(128|256)|"
+                     r"_skinny_has_vec(128|256))$")
+WRITERS = re.compile(r"^((skinny(128|64)|mantis)_(set_key|set_key_inner|set_tweaked_key|set_tweak|set_tk[123]|xor_tk1|swap_modes)|"
+                     r"(skinny(128|64)|mantis)_parallel_ecb_(set_key|swap_modes|init|cleanup)|skinny_cleanse|skinny_calloc|calloc|malloc|free|memset|memcpy|memmove)$")
+
+
+def c18_readers_call_no_writers():
+    """C18 (ii, static part): the functions that callers may run concurrently on a shared schedule / object (block functions, parallel
+    ECB data functions with their vector back ends, CPU probes) do not call - directly or through other library functions, with the
+    vtable calls resolved by goto-instrument's function pointer removal - any function whose contract writes a schedule or object.
+    Decided on the call graph of each translation unit (goto-cc + goto-instrument --call-graph); a fact about code structure that
+    does not depend on loop invariants."""
+    tmp = tempfile.mkdtemp(prefix="verif_c18cg_")
+    bad, samples = [], []
+    n = 0
+    try:
+        edges = {}
+        for f in sorted(os.listdir(os.path.join(REPO, "src"))):
+            if not f.endswith(".c") or "-ctr" in f:
+                continue
+            fl = []
+            if f.endswith("vec128.c"):
+                fl = ["-msse2"]
+            elif f.endswith("vec256.c"):
+                fl = ["-mavx2"]
+            elif f == "skinny-internal.c":
+                fl = ["-msse2", "-mavx2"]
+            gb = os.path.join(tmp, f[:-2] + ".gb")
+            p = subprocess.run(["goto-cc", "-c", "-std=c99", "-I" + os.path.join(REPO, "include"), "-I" + os.path.join(REPO, "src")] + fl +
+                               [os.path.join(REPO, "src", f), "-o", gb], stdout=subprocess.PIPE, stderr=subprocess.STDOUT)
+            if p.returncode != 0:
+                return {"error": "goto-cc failed on %s: %s" % (f, p.stdout.decode()[-300:])}
+            out = subprocess.run(["goto-instrument", "--call-graph", gb], stdout=subprocess.PIPE, stderr=subprocess.STDOUT).stdout.decode()
+            for l in out.splitlines():
+                m = re.match(r"^(\S+) -> (\S+)$", l.strip())
+                if m:
+                    edges.setdefault(m.group(1), set()).add(m.group(2))
+        readers = sorted(k for k in edges if READERS.match(k)) + sorted(set(c for v in edges.values() for c in v if READERS.match(c)) - set(edges))
+        for r in sorted(set(readers)):
+            n += 1
+            seen, todo, path = set(), [(r, [r])], None
+            while todo:
+                fn, pth = todo.pop()
+                if fn in seen:
+                    continue
+                seen.add(fn)
+                for c in sorted(edges.get(fn, ())):
+                    if WRITERS.match(c):
+                        path = pth + [c]
+                        break
+                    todo.append((c, pth + [c]))
+                if path:
+                    break
+            if path:
+                bad.append("%s reaches a function that writes shared state: %s" % (r, " -> ".join(path)))
+            elif len(samples) < 6:
+                samples.append("%s: calls only %s" % (r, ", ".join(sorted(seen - {r})) or "nothing"))
+    finally:
+        shutil.rmtree(tmp, ignore_errors=True)
+    return {"obligations": n, "discharged": n - len(bad), "samples": samples, "violations": bad,
+            "job": {"job": "static.c18.callgraph", "functions_under_contract": [], "obligations": n, "discharged": n - len(bad),
+                    "status": "fail" if bad else "ok", "backend": "goto-cc + goto-instrument --call-graph (function pointers removed)",
+                    "note": "read-only entry points reach no function whose contract writes a schedule / object"}}
